@@ -25,7 +25,9 @@ EXPLANATION = (
     'the property names (duplicate field, missing initial, primary key) with '
     'the right data dependence, reaching simulation.fail; R-C12.6 '
     'SimulationFailure is an EvolutionException and handle converts '
-    'EvolutionException to CommandError.')
+    'EvolutionException to CommandError; R-C12.7 no handler for an evolution '
+    'error or a broad exception class in any function reachable from the '
+    'command can continue normally (CannotSimulate excepted, by design).')
 NOT_DECIDED = (
     'That every perturbed evolution is in fact rejected (quantifies over '
     'evolutions and needs the diff/simulate semantics executed).')
@@ -531,11 +533,73 @@ def r6_errors_surface(ctx):
                     key='no-conversion')
 
 
+def r7_no_swallowed_rejection(ctx, handle, gate_nodes):
+    """No handler between the command and the simulation swallows an
+    evolution error (a rejected evolution must surface)."""
+    ctx.rule('R-C12.7')
+    p = ctx.program
+    ee = p.cls('errors', 'EvolutionException')
+    family = {c.name for c in [ee] + ee.all_subclasses()}
+    accepted = {'CannotSimulate': 'by design: marks the task as not '
+                'simulatable, the command then reports it'}
+    broad = {'Exception', 'BaseException'}
+    g = ctx.cfg(handle)
+    roots = []
+    for n in g.nodes:
+        for c in n.calls():
+            targets, prec = ctx.resolve(handle, c)
+            roots += targets
+    for attr, cands in p.property_reads(handle):
+        roots += cands
+    reach = p.reachable_funcs(roots + [handle])
+    n = 0
+    for fq, f in sorted(reach.items()):
+        mod = f.module.name.split('django_evolution.', 1)[-1]
+        if mod in ('db.mysql', 'db.postgresql'):
+            continue
+        for t in walk_no_nested(f.node):
+            if not isinstance(t, ast.Try):
+                continue
+            for h in t.handlers:
+                names = [x.id if isinstance(x, ast.Name) else x.attr
+                         for x in (ast.walk(h.type) if h.type is not None
+                                   else [])
+                         if isinstance(x, (ast.Name, ast.Attribute))]
+                if h.type is None:
+                    names = ['BaseException']
+                hit = [nm for nm in names if nm in family or nm in broad]
+                if not hit:
+                    continue
+                n += 1
+                if all(nm in accepted for nm in hit):
+                    ctx.ok(f, 'handler for %s accepted: %s' % (
+                        '/'.join(hit), accepted[hit[0]]), h)
+                    continue
+                fg = ctx.cfg(f)
+                hn = next((x for x in fg.nodes if x.kind == 'except' and
+                           x.ast is h), None)
+                if hn is None:
+                    continue
+                if fg.exit.id in fg.reachable([hn]):
+                    ctx.finding(f, h, '%s catches %s and can continue '
+                                'normally: an evolution error raised while '
+                                'preparing/simulating would be swallowed '
+                                'instead of rejecting the upgrade' % (
+                                    f.qualname, '/'.join(hit)),
+                                key='swallow:%s' % '/'.join(hit))
+                else:
+                    ctx.ok(f, 'handler for %s re-raises or converts' %
+                           '/'.join(hit), h)
+    ctx.floor('evolution-error / broad handlers reachable from the command',
+              n, 6)
+
+
 def run(ctx):
     handle, gate_nodes = r1_gate_dominates(ctx)
     r2_gate_fails_closed(ctx)
     if handle is not None:
         r3_no_state_change_before_gate(ctx, handle, gate_nodes)
+        r7_no_swallowed_rejection(ctx, handle, gate_nodes)
     r4_fail_raises(ctx)
     r5_precondition_guards(ctx)
     r6_errors_surface(ctx)
